@@ -655,6 +655,7 @@ class Emitter:
         self.loop_depth = 0
         self.outlined = []
         self.rename = {}
+        self.last_loop_ord = 0
         sig = self.signature(fi)
         n = fi['node']
         body_lines = []
@@ -990,6 +991,7 @@ class Emitter:
 
     def loop_contract(self, out):
         self.loop_ord += 1
+        self.last_loop_ord = self.loop_ord
         key = (self.fi['cname'], self.loop_ord)
         spec = self.loopspecs.get(key)
         if spec:
@@ -1108,6 +1110,7 @@ class Emitter:
             self._st_WhileStmt(n, out)
         finally:
             self.loop_depth -= 1
+        self.loop_exit_ghost(out)
 
     def st_DoStmt(self, n, out):
         if self.maybe_outline(n, out):
@@ -1117,6 +1120,7 @@ class Emitter:
             self._st_DoStmt(n, out)
         finally:
             self.loop_depth -= 1
+        self.loop_exit_ghost(out)
 
     def st_ForStmt(self, n, out):
         if self.maybe_outline(n, out):
@@ -1126,6 +1130,7 @@ class Emitter:
             self._st_ForStmt(n, out)
         finally:
             self.loop_depth -= 1
+        self.loop_exit_ghost(out)
 
     def st_CXXForRangeStmt(self, n, out):
         if self.maybe_outline(n, out):
@@ -1135,6 +1140,12 @@ class Emitter:
             self._st_CXXForRangeStmt(n, out)
         finally:
             self.loop_depth -= 1
+        self.loop_exit_ghost(out)
+
+    def loop_exit_ghost(self, out):
+        if self.loop_depth == 0 or True:
+            for g in self.ghost.get((self.fi['cname'], 'loop%d_exit' % self.last_loop_ord), []):
+                out.add(g)
 
     def _st_WhileStmt(self, n, out):
         parts = inner(n)
@@ -1739,6 +1750,12 @@ class Emitter:
 
     GRAPH_RECORDS = ('LDG_', 'LUG_', 'DM', 'UM', 'DW', 'UW')
 
+    @staticmethod
+    def iter_protocol(cname):
+        """edge-iterator functions: the cached row is part of the iterator state their contracts
+        describe (EIT_OK), so no cache reset is emitted around calls to them"""
+        return False
+
     def graph_const(self, cname):
         """the callee cannot mutate a graph: every pointer parameter of a graph record type is const"""
         fi = self.p.func_by_cname.get(cname)
@@ -1778,7 +1795,8 @@ class Emitter:
         if contracted:
             cargs = self.hoist_shim_args(cargs, out)
             call = '%s(%s)' % (cname, ', '.join(cargs))
-            out.add('bg_ghost_reset_keep_frontier();' if self.graph_const(cname) else 'bg_ghost_reset_all();')
+            if not self.iter_protocol(cname):
+                out.add('bg_ghost_reset_keep_frontier();' if self.graph_const(cname) else 'bg_ghost_reset_all();')
         if discard and not (throws or is_bg):
             return call
         if discard:
@@ -1798,7 +1816,7 @@ class Emitter:
                 else:
                     out.add('%s = %s;' % (ct.value_decl(t), call))
                     res = t
-            if contracted:
+            if contracted and not self.iter_protocol(cname):
                 out.add('bg_ghost_invalidate_keep_frontier();' if self.graph_const(cname) else 'bg_ghost_invalidate();')
             self.exc_check(out)
             return res
